@@ -34,7 +34,7 @@ def plan(tier, seed):
     i = 100
     n = S(tier, 200, 2000)
     for r in range(n):
-        cases.append(dict(lane='matrix', K=int(rng.integers(1, 7)), lead=pick([[], [4]]), dtype=pick(['float', 'int', 'ties', 'uint8', 'uint16', 'bool', 'int8', 'float-neg', 'float-neg']), rs=[seed, 17, i])); i += 1
+        cases.append(dict(lane='matrix', K=int(rng.integers(1, 7)), lead=pick([[], [4]]), dtype=pick(['float', 'int', 'ties', 'uint8', 'uint16', 'bool', 'int8', 'float-neg', 'float-neg', 'float-huge']), rs=[seed, 17, i])); i += 1
     for r in range(n):
         refk = pick(['onehot-ish', 'continuous', 'soft', 'similar', 'int8-binary', 'bool-binary', 'quiet', 'quiet32', 'signed', 'antipodal'])
         cases.append(dict(lane='field', K=int(rng.integers(1, 7)), F=int(pick([1, 3, 5, 9, 33, 65, 129, 257])), T=int(rng.integers(2, 40)) if 'binary' not in refk else int(pick([60, 400, 1000])),
@@ -68,6 +68,8 @@ def check_optimal(R, sm, info):
     differ = False
     for idx in np.ndindex(*sm.shape[:-2]):
         s = sm[idx].astype(float)
+        if np.abs(s).max(initial=0.0) > 1e150:
+            s = s / np.abs(s).max()          # the comparisons below are scale free; keeps the monitor's own sums finite
         po = mo[(slice(None), *idx)]
         pg = mg[(slice(None), *idx)]
         tot = s[range(K), po].sum()
@@ -103,6 +105,10 @@ def run_matrix(case, R):
             sm = 1000.0 + 0.01 * rng.uniform(size=(*lead, K, K))       # totals that differ only in the 6th significant digit
     elif case['dtype'] == 'float-neg':
         sm = -np.abs(rng.standard_normal((*lead, K, K))) * 10 ** rng.uniform(-2, 2)       # all scores negative (negated distances)
+    elif case['dtype'] == 'float-huge':
+        # finite scores near the top of the float range (similarities of masks kept at a huge level): every entry and every total of
+        # K entries is representable, the sum over the whole stack of matrices is not
+        sm = rng.uniform(0.2, 1.0, size=(*lead, K, K)) * (1.7e308 / (K + 1)) * rng.choice([1.0, -1.0])
     elif case['dtype'] == 'int':
         sm = rng.integers(-50, 50, size=(*lead, K, K))
     elif case['dtype'] in ('uint8', 'uint16', 'int8'):
